@@ -57,6 +57,25 @@ Fixpoint mccs_down (nm em : attrs -> attrs -> bool) (larger smaller : graph) (k 
             end
   end.
 
+(** intermediate value observed by the correspondence: how many GraphMatcher objects the search builds (= admissible candidates
+    examined, in enumeration order, up to and including the first one found) *)
+Fixpoint tries_in (nm em : attrs -> attrs -> bool) (larger smaller : graph) (l : list (list N)) : nat * bool :=
+  match l with
+  | [] => (O, false)
+  | x :: r =>
+      let cand := induced_sub smaller x in
+      if admissible cand then
+        (if vf2b true nm em larger cand then (1, true)
+         else let '(n, b) := tries_in nm em larger smaller r in (S n, b))
+      else tries_in nm em larger smaller r
+  end.
+Fixpoint tries_down (nm em : attrs -> attrs -> bool) (larger smaller : graph) (k : nat) : nat :=
+  match k with
+  | O => O
+  | S k' => let '(n, b) := tries_in nm em larger smaller (combs k (node_ids smaller)) in
+            if b then n else n + tries_down nm em larger smaller k'
+  end.
+
 Definition mccs_pick (g1 g2 : graph) : graph * graph :=                   (* (smaller, larger) *)
   if n_nodes g1 <=? n_nodes g2 then (g1, g2) else (g2, g1).
 Definition mccs (names defaults : list N) (eattr done : N) (g1 g2 : graph) : graph :=
@@ -66,12 +85,27 @@ Definition mccs (names defaults : list N) (eattr done : N) (g1 g2 : graph) : gra
   | None => LG [] []
   end.
 
+Definition mccs_tries (names defaults : list N) (eattr done : N) (g1 g2 : graph) : nat :=
+  let '(smaller, larger) := mccs_pick g1 g2 in
+  tries_down (mccs_nm names defaults) (mccs_em eattr done) larger smaller (n_nodes smaller).
+
 (** heuristics_MCCS(graphs): [] raises ValueError (None here); one graph: itself; otherwise fold from the left, stopping as soon as
     the running common subgraph is empty *)
 Fixpoint hmccs_fold (names defaults : list N) (eattr done : N) (cur : graph) (rest : list graph) : graph :=
   match rest with
   | [] => cur
   | g :: r => if n_nodes cur =? 0 then cur else hmccs_fold names defaults eattr done (mccs names defaults eattr done cur g) r
+  end.
+Fixpoint hmccs_fold_tries (names defaults : list N) (eattr done : N) (cur : graph) (rest : list graph) : nat :=
+  match rest with
+  | [] => O
+  | g :: r => if n_nodes cur =? 0 then O
+              else mccs_tries names defaults eattr done cur g + hmccs_fold_tries names defaults eattr done (mccs names defaults eattr done cur g) r
+  end.
+Definition hmccs_tries (names defaults : list N) (eattr done : N) (gs : list graph) : nat :=
+  match gs with
+  | g1 :: g2 :: r => mccs_tries names defaults eattr done g1 g2 + hmccs_fold_tries names defaults eattr done (mccs names defaults eattr done g1 g2) r
+  | _ => O
   end.
 Definition hmccs (names defaults : list N) (eattr done : N) (gs : list graph) : option graph :=
   match gs with
@@ -93,10 +127,12 @@ Inductive mquery :=
 
 Definition run_mccs (gs : list graph) (qs : list mquery) : tok :=
   tlist (fun q => match q with
-                  | MQ i j names defaults eattr done => tgraph (mccs has_mono names defaults eattr done (gnth gs i) (gnth gs j))
+                  | MQ i j names defaults eattr done =>
+                      L [tgraph (mccs has_mono names defaults eattr done (gnth gs i) (gnth gs j));
+                         tnat (mccs_tries has_mono names defaults eattr done (gnth gs i) (gnth gs j))]
                   | MH idx names defaults eattr done =>
                       match hmccs has_mono names defaults eattr done (map (gnth gs) idx) with
-                      | Some g => tgraph g
+                      | Some g => L [tgraph g; tnat (hmccs_tries has_mono names defaults eattr done (map (gnth gs) idx))]
                       | None => L [tN 99; tN 3]
                       end
                   end) qs.
